@@ -324,6 +324,122 @@ def check_viterbi(ctx, case, operands, ops_ix, out, sr, types):
             return
 
 
+def run_viteinsum_model(ctx, n=None):
+    """the model `Ve.vitEinsum` of the patterned `log_viterbi_einsum_forward` (the unification pass and re-indexing of `Ei.einsum`,
+    the physical max / first arg-max, one pointer per summed-out index variable through `Axis.stride(subst)`, the three layouts
+    of the pointer tensor) predicts the REPRESENTATION of both results and is compared with them token by token up to a renaming
+    of the physical axes.  When the pointers differ although the maxima agree (a tie broken differently by torch_semiring_einsum),
+    the library's own pointers must satisfy the contract `Ve.ptrOk` (decided by the model): the pointed-at assignment has exactly
+    the weight stored in the maximum."""
+    from .unifygen import canon
+    from .common import enc_ext, Toks
+    reqs, meta = [], []
+    sr = fggs.ViterbiSemiring(dtype=torch.float64)
+    zero = sr.from_int(0).item()
+    for k in range(n if n is not None else (80 if ctx.quick else 1500)):
+        types, ops_ix, out = gen_job(ctx.rng)
+        if not ops_ix or math.prod([ty_numel(t) for t in types.values()] + [1]) > 300:
+            continue
+        # few ties (distinct-ish weights) in two runs out of three, many ties otherwise
+        vals = [0.0, -1.0, -2.0, 1.0] if k % 3 == 0 else [-(i + 1) * 0.5 ** (i % 5 + 1) for i in range(23)] + [0.0, 1.0]
+        operands = [random_pt(ctx.rng, [types[l] for l in ix], values=vals, defaults=[-math.inf], specials=0.0) for ix in ops_ix]
+        for t in operands:
+            t.default = zero
+        if any(k_._numel == 0 for t in operands for k_ in t.paxes):
+            continue
+        ids = {}
+        def enc(p_, ids_):
+            pa = enc_list(p_.paxes, lambda k_: f'{ids_.setdefault(id(k_), len(ids_))} {k_._numel}')
+            va = enc_list(p_.vaxes, lambda e: ptgen.enc_axis(e, ids_))
+            ph = p_.physical.to(torch.float64)
+            return f'{enc_list(ph.contiguous().reshape(-1).tolist() if ph.numel() else [], enc_ext)} {pa} {va} {enc_ext(float(p_.default))}'
+        encs = [enc(t, ids) for t in operands]
+        case = dict(semiring='viterbi', operands=encs, inputs=ops_ix, output=out, stream='viteinsum-model')
+        try:
+            with torch.no_grad():
+                rv, rp = log_viterbi_einsum_forward(operands, ops_ix, out, sr)
+        except Exception as ex:  # noqa
+            ctx.fail(f'log_viterbi_einsum_forward raised {type(ex).__name__}: {str(ex)[:80]}', case, repr(ex), None,
+                     tags=['raises', 'viterbi-forward', type(ex).__name__])
+            continue
+        job = enc_list(list(zip(encs, ops_ix)), lambda p_: f'{p_[0]} {enc_list(p_[1])}') + ' ' + enc_list(out)
+        nxt = len(ids) + 5
+        ids2 = dict(ids)
+        def encP(r):
+            pa = enc_list(r.paxes, lambda k_: f'P {ids2.setdefault(id(k_), len(ids2))} {k_._numel}')
+            va = enc_list(r.vaxes, lambda e: ptgen.enc_axis(e, ids2))
+            return f'{enc_list(r.physical.to(torch.float64).contiguous().reshape(-1).tolist(), enc_ext)} {pa} {va} {enc_ext(float(r.default))}'
+        want = encP(rv) + ' ' + encP(rp)
+        ids3 = dict(ids)
+        reqs.append(f'C04.viteinsum {job} {nxt}')
+        reqs.append(f'C04.ptrok {job} {nxt} {enc(rv, ids3)} {enc(rp, ids3)}')
+        meta.append((case, want))
+        ctx.count('viteinsum-model')
+        ctx.count(f'viteinsum-model.summed-out={len({l for ix in ops_ix for l in ix} - set(out))}')
+    reps = ctx.driver.ask_many(reqs)
+    for i, (case, want) in enumerate(meta):
+        rep, okrep = reps[2 * i], reps[2 * i + 1]
+        if isinstance(rep, Exception): raise rep
+        if isinstance(okrep, Exception): raise okrep
+        toks = rep.split()
+        flags = toks[-4:]
+        body = toks[:-4]
+        def pt_len(ts, i, tagged):
+            """number of tokens of the patterned tensor that starts at ts[i] (physical axes written `id n`, or `P id n` when tagged)"""
+            t = Toks('x'); t.t = ts; t.i = i
+            t.list(t.next)
+            t.list((lambda: (t.next(), t.next(), t.next())) if tagged else (lambda: (t.next(), t.next())))
+            def axis():
+                k = t.next()
+                if k == 'P': t.next(); t.next()
+                elif k == 'X': t.list(axis)
+                else: t.next(); axis(); t.next()
+            t.list(axis)
+            t.next()
+            return t.i - i
+        n1 = pt_len(body, 0, False)
+        pv, pp = body[:n1], body[n1:]
+        def withP(ts):
+            L = int(ts[0]); i = 1 + L
+            P = int(ts[i]); pax = ts[i + 1:i + 1 + 2 * P]
+            return ts[:i] + [str(P)] + sum((['P', pax[2 * j], pax[2 * j + 1]] for j in range(P)), []) + ts[i + 1 + 2 * P:]
+        mv, mp = withP(pv), withP(pp)
+        wt = want.split()
+        n2 = pt_len(wt, 0, True)
+        wv, wp = wt[:n2], wt[n2:]
+        ctx.evaluations += 1
+        unified, resolved, wf, mok = flags
+        ctx.count('viteinsum-model.' + ('all-unified' if unified == 'T' else 'some-unification-failed'))
+        if okrep.strip() != 'T':
+            ctx.fail('the pointers returned by log_viterbi_einsum_forward do not point at an assignment of the stored weight (Ve.ptrOk)',
+                     case, want, 'ptrOk = false', tags=['viterbi-ptr', 'ptrOk'])
+            continue
+        if mok != 'T':
+            ctx.disagree('Ve.vitEinsum: the model\'s own pointers fail Ve.ptrOk (theorem C04.vitEinsum_ptrOk would be contradicted)', case, want, rep[-60:])
+            continue
+        def pids(ts):
+            return {ts[i + 1] for i in range(len(ts) - 2) if ts[i] == 'P'}
+        # zero_result() builds the two tensors independently (no shared physical axes); the model numbers each from 0
+        independent = not (pids(wv) & pids(wp))
+        if canon(mv + mp) == canon(wv + wp) or (independent and canon(mv) == canon(wv) and canon(mp) == canon(wp)):
+            ctx.count('viteinsum-model.ptr-exact')
+        elif canon(mv) != canon(wv):
+            ctx.disagree('Ve.vitEinsum (model of the patterned Viterbi einsum): representation of the maximum', case, ' '.join(wv), ' '.join(mv))
+        else:
+            # same maxima; the pointer tensors must have the same pattern and differ in values only (a tie)
+            def strip_phys(ts):
+                L = int(ts[0]); return ts[1 + L:], ts[1:1 + L]
+            (ms, mvals), (ws, wvals) = strip_phys(mp), strip_phys(wp)
+            if (canon(mv + ['0'] + ms) != canon(wv + ['0'] + ws) and not (independent and canon(ms) == canon(ws))) or len(mvals) != len(wvals):
+                ctx.disagree('Ve.vitEinsum: pattern of the pointer tensor', case, ' '.join(wp), ' '.join(mp))
+            else:
+                ctx.count('viteinsum-model.ptr-tie-broken-differently')
+        if wf != 'T':
+            ctx.disagree('Ve.vitEinsum: the model\'s result is not well formed (PT.wf)', case, want, rep[-60:])
+        elif resolved != 'T':
+            ctx.disagree('Ei.resolved is false for this job: the theorems C04.vitEinsum_* do not cover it', case, None, rep[-60:])
+
+
 def run_mv_mm(ctx):
     sr = fggs.RealSemiring(dtype=torch.float64)
     for _ in range(20 if ctx.quick else 300):
